@@ -154,6 +154,49 @@ def numpy_typed(prms, rng):
     return {k: (conv(v) if rng.random() < 0.7 else v) for k, v in prms.items()}
 
 
+def frame_variant(rng, rows):
+    """An accepted spelling of the same table that the checker has to normalise: ceilometer ids that are not str
+    (ints), other dtypes for the numeric columns, an extra column, another column order.  Returns (frame, rows as the
+    package will see them after normalisation, tag)."""
+    how = rng.choice(['int_ceilo', 'int_ceilo', 'obj_ceilo', 'float_type', 'int8_type', 'extra_col', 'col_perm', 'object_all'])
+    if how == 'int_ceilo':
+        names = sorted({r[0] for r in rows})
+        m = {c: i + 1 for i, c in enumerate(names)}
+        rows2 = [(str(m[c]), dt, h, t) for c, dt, h, t in rows]
+        df = make_frame(rows2)
+        df['ceilo'] = np.array([m[c] for c, *_ in rows], dtype='int64')
+        return df, rows2, how, {c: str(i) for c, i in m.items()}
+    df = make_frame(rows)
+    if how == 'obj_ceilo':
+        df['ceilo'] = df['ceilo'].astype(object)
+    elif how == 'float_type':
+        df['type'] = df['type'].astype(float)
+    elif how == 'int8_type':
+        df['type'] = df['type'].astype('int8')
+    elif how == 'extra_col':
+        df.insert(rng.randrange(len(df.columns) + 1), 'station', 'LSZH')
+    elif how == 'col_perm':
+        cols = list(df.columns); rng.shuffle(cols); df = df[cols]
+    elif how == 'object_all':
+        df = df.astype(object)
+    return df, rows, how, None
+
+
+def _same_tree(a, b):
+    """Equality of parameter trees by value (NumPy scalars equal to the Python numbers of the same value)."""
+    if isinstance(a, dict) or isinstance(b, dict):
+        return isinstance(a, dict) and isinstance(b, dict) and set(a) == set(b) and all(_same_tree(a[k], b[k]) for k in a)
+    if isinstance(a, (list, tuple)) or isinstance(b, (list, tuple)):
+        return isinstance(a, (list, tuple)) and isinstance(b, (list, tuple)) and len(a) == len(b) \
+            and all(_same_tree(x, y) for x, y in zip(a, b))
+    if a is None or b is None:
+        return a is None and b is None
+    try:
+        return bool(a == b)
+    except Exception:
+        return False
+
+
 def _nested_update(ref, new):
     for k, v in new.items():
         if isinstance(v, dict) and isinstance(ref.get(k), dict):
@@ -249,11 +292,29 @@ def run_scene(rows, prms, index=None, stages=('slices', 'groups', 'layers'), fra
     with common.debug_logging(debug_log), record.recording(fuzz=kernel_fuzz) as tr, warnings.catch_warnings(record=True) as wl:
         warnings.simplefilter('always')
         try:
+            from ampycloud import dynamic as _dyn
+            expected_eff = copy.deepcopy(_dyn.AMPYCLOUD_PRMS)
+            _nested_update(expected_eff, copy.deepcopy(prms or {}))
             if route == 'run':
                 # the package's own entry point (construction + the three stages in one call)
                 import ampycloud
                 obs['stage'] = 'run'
                 chunk = ampycloud.run(df, prms=copy.deepcopy(prms), **(chunk_kwargs or {}))
+            elif route == 'full_over_poisoned':
+                # every leaf given per call (None, 0, empty lists included) over a global whose result-relevant leaves
+                # are all poisoned: a per-call value, whatever it is, overrides the global
+                from ampycloud import dynamic
+                saved_global = dynamic.AMPYCLOUD_PRMS
+                g = common.packaged_defaults()
+                poison_global(g)
+                full = common.packaged_defaults()
+                _nested_update(full, copy.deepcopy(prms))
+                expected_eff = copy.deepcopy(full)
+                dynamic.AMPYCLOUD_PRMS = g
+                try:
+                    chunk = CeiloChunk(df, prms=full, **(chunk_kwargs or {}))
+                finally:
+                    dynamic.AMPYCLOUD_PRMS = saved_global
             elif route == 'global':
                 # the documented global route: the scene's parameters are set in dynamic.AMPYCLOUD_PRMS, the chunk is
                 # built without per-call parameters, and then *the dictionary that was the global at construction is
@@ -263,6 +324,7 @@ def run_scene(rows, prms, index=None, stages=('slices', 'groups', 'layers'), fra
                 saved_global = dynamic.AMPYCLOUD_PRMS
                 g = common.packaged_defaults()
                 _nested_update(g, copy.deepcopy(prms))
+                expected_eff = copy.deepcopy(g)
                 dynamic.AMPYCLOUD_PRMS = g
                 try:
                     chunk = CeiloChunk(df, **(chunk_kwargs or {}))
@@ -274,7 +336,15 @@ def run_scene(rows, prms, index=None, stages=('slices', 'groups', 'layers'), fra
             obs['data'] = data_rows(chunk.data)
             obs['labels_unique'] = bool(chunk.data.index.is_unique)
             obs['flag'] = bool(chunk.clouds_above_msa_buffer)
-            obs['eff'] = copy.deepcopy(chunk.prms)
+            # the parameters the model works with are the ones that were *requested* (computed here, independently of
+            # the package: the global as it was when the chunk was built, updated with the per-call values) - not the ones
+            # read back from the chunk, which are compared with them
+            obs['eff'] = expected_eff
+            try:
+                obs['eff_mismatch'] = None if _same_tree(chunk.prms, expected_eff) else \
+                    [k_ for k_ in expected_eff if not _same_tree(chunk.prms.get(k_), expected_eff[k_])][:4] or ['key set']
+            except Exception as e_:          # an odd parameter object: leave the judgement to the other observables
+                obs['eff_mismatch'] = None
             for st in stages:
                 if route != 'run':
                     obs['stage'] = st
